@@ -731,8 +731,8 @@ class Interp:
         cur = [s]
         is_for = isinstance(n, ast.For)
         concrete_items = None
-        if is_for and isinstance(iterable, (list, tuple)) and is_concrete(iterable) and len(iterable) <= 64:
-            concrete_items = list(iterable)
+        if is_for and isinstance(iterable, (list, tuple)) and len(iterable) <= 64:
+            concrete_items = list(iterable)           # a known sequence (its elements may be symbolic)
         elif is_for and isinstance(iterable, range) and len(iterable) <= 256:
             concrete_items = list(iterable)
         elif is_for and isinstance(iterable, str) and not isinstance(iterable, M._StringLetters) and len(iterable) <= 256:
@@ -765,6 +765,8 @@ class Interp:
                         item = st.env['__iter@%d' % n.lineno].take()
                     else:
                         item = self.h.iter_item(self, n, k, st)
+                        if item is None and k == 0:
+                            self.unknown_branches.append('iteration over %s, which is not determined (line %s)' % (_text(n.iter)[:60], n.lineno))
                     if item is STOP:
                         exits.append(st)
                     elif item is not None:
@@ -2052,6 +2054,11 @@ class Interp:
                 return None
             if fname == 'hasattr' and nm.startswith('@'):
                 return nm in o.attrs
+            if fname == 'hasattr' and nm in o.attrs:
+                return True
+            if fname == 'hasattr' and isinstance(o, Obj) and o.attrs.get('__closed') and isinstance(o.cls, M.ClassInfo) and self.model is not None \
+               and self.model.find_attr_class(o.cls, nm) is None:
+                return False
             if fname == 'getattr' and nm.startswith('@'):
                 if nm in o.attrs:
                     return o.attrs[nm]
@@ -2231,12 +2238,30 @@ class Interp:
                 return len(args[0])
         if isinstance(n.func, ast.Name) and n.func.id not in s.env and n.func.id in _PURE and any(isinstance(a, Iter) for a in args):
             args = [list(a.items[a.pos:]) if isinstance(a, Iter) else a for a in args]      # a generator handed to all()/any()/list()...
+        if isinstance(n.func, ast.Name) and n.func.id not in s.env and n.func.id in ('enumerate', 'reversed', 'list', 'tuple', 'zip') and args \
+           and all(isinstance(a, (list, tuple)) and not isinstance(a, ListObj) for a in args[:1 if n.func.id == 'enumerate' else len(args)]):
+            # structural: the elements may be symbolic
+            try:
+                if n.func.id == 'enumerate' and (len(args) == 1 or isinstance(args[1], int)) and set(kwargs) <= {'start'} \
+                   and isinstance(kwargs.get('start', 0), int):
+                    return list(enumerate(args[0], args[1] if len(args) > 1 else kwargs.get('start', 0)))
+                if n.func.id == 'reversed' and len(args) == 1 and not kwargs:
+                    return list(reversed(args[0]))
+                if n.func.id == 'list' and len(args) == 1 and not kwargs:
+                    return list(args[0])
+                if n.func.id == 'tuple' and len(args) == 1 and not kwargs:
+                    return tuple(args[0])
+                if n.func.id == 'zip' and not kwargs:
+                    return list(zip(*args))
+            except Exception:
+                return TOP
         if isinstance(n.func, ast.Name) and n.func.id not in s.env:
             b = _PURE.get(n.func.id)
-            if b is not None and all(is_concrete(a) for a in args) and not kwargs:
+            if b is not None and all(is_concrete(a) for a in args) and (not kwargs or (n.func.id in ('enumerate', 'sorted', 'int', 'round', 'sum', 'min', 'max')
+                                                                                  and all(_plain(v) for v in kwargs.values()))):
                 if not any(isinstance(a, M._StringLetters) for a in args):
                     try:
-                        return b(*args)
+                        return b(*args, **kwargs)
                     except Exception:
                         return TOP
         if not (isinstance(n.func, ast.Attribute) and _text(n.func.value) in _NOTHROW) and fname not in _NOTHROW_CALLS:
@@ -2358,7 +2383,7 @@ _BUILTIN_TYPES = {'str': str, 'int': int, 'float': float, 'list': list, 'dict': 
 _PURE = {'len': len, 'int': int, 'str': str, 'bool': bool, 'ord': ord, 'chr': chr,
          'abs': abs, 'min': min, 'max': max, 'list': list, 'tuple': tuple,
          'float': float, 'range': range, 'sorted': sorted, 'reversed': lambda x: list(reversed(x)),
-         'sum': sum, 'set': set, 'dict': dict, 'enumerate': lambda x: list(enumerate(x)),
+         'sum': sum, 'set': set, 'dict': dict, 'enumerate': lambda x, start=0: list(enumerate(x, start)),
          'divmod': divmod, 'round': round, 'pow': pow, 'hex': hex, 'oct': oct, 'bin': bin, 'any': any, 'all': all,
          'zip': lambda *a: list(zip(*a)), 'repr': repr}
 
